@@ -115,7 +115,8 @@ def run_property(pid, tier, seed):
     budget = getattr(mod, "BOUNDED_BUDGET", 150) * (1 if tier == "quick" else 8)
     from concurrent.futures import ThreadPoolExecutor
     with ThreadPoolExecutor(max_workers=8) as ex:
-        for b in ex.map(lambda k: driver.run_bounded(eng, pid, k, budget, seed), keys):
+        stubs = getattr(mod, "BOUNDED_STUBS", {})
+        for b in ex.map(lambda k: driver.run_bounded(eng, pid, k, budget * (20 if k in stubs else 1), seed, stubs.get(k)), keys):
             bounded.append(b)
             for fl in b.get("failures", []):
                 findings.append(driver.Finding(pid, fl["name"], fl["what"], fl.get("replay"), True, fl, kind="bounded"))
